@@ -76,6 +76,7 @@ func GenWorld(r *common.Rng) *World {
 				hasAnchor = true
 			}
 			dedupInputs(&m)
+			hasAnchor = anchored(&m)
 			m.Init = pickInit(r, maxInit, hasAnchor)
 			if len(indexes) > 0 && r.Chance(1, 4) {
 				j := indexes[r.Intn(len(indexes))]
@@ -117,6 +118,7 @@ func GenWorld(r *common.Rng) *World {
 				hasAnchor = true
 			}
 			dedupInputs(&m)
+			hasAnchor = anchored(&m)
 			m.Init = pickInit(r, maxInit, hasAnchor)
 			pv := [][2]string{{"add", "int64"}, {"add", "int64"}, {"add", "bigint"}, {"add", "bigdecimal"}, {"set", "bytes"}, {"sine", "bytes"}, {"append", "bytes"}, {"max", "int64"}, {"min", "int64"}, {"setsum", "int64"}}[r.Intn(10)]
 			m.Policy, m.VT = pv[0], pv[1]
@@ -156,6 +158,17 @@ func GenWorld(r *common.Rng) *World {
 		}
 	}
 	return w
+}
+
+// anchored: some input exists at every block (block source, clock, or params as the sole input), so the module
+// may start below the initial blocks of the modules it reads
+func anchored(m *ModSpec) bool {
+	for _, in := range m.Inputs {
+		if in.Kind == "source" || in.Kind == "clock" {
+			return true
+		}
+	}
+	return len(m.Inputs) == 1 && m.Inputs[0].Kind == "params"
 }
 
 func dedupInputs(m *ModSpec) {
